@@ -6,7 +6,7 @@ from lib.vals import *
 THEOREMS = ["C03_safeParse_success_iff_validate", "C03_safeParse_failure_means_rejected",
             "C03_parse_returns_iff_safeParse_succeeds", "C03_parse_failure_means_rejected",
             "C03_validate_never_throws_except_known", "C03_refuted_validate_throws", "C03_refuted_projection",
-            "C03_nonvacuous"]
+            "C03_data_is_accepted_again_except_known", "C03_refuted_for_typed_arrays", "C03_nonvacuous"]
 IMPORTS = "From Beff Require Import Model.Cases Model.RuntimeSpec."
 OPTS = [(False, "input"), (False, "sorted"), (True, "input"), (True, "sorted")]
 PROTO_NAMES = {"constructor", "__defineGetter__", "__defineSetter__", "hasOwnProperty", "__lookupGetter__",
@@ -76,6 +76,8 @@ def tree_tags(c):
                 tags.add("Index")
             if n[0] == "Object" and any(k in PROTO_NAMES or k == "__proto__" for k, _ in n[1]):
                 tags.add("ProtoKey")
+            if n[0] == "Object" and any(k == "length" for k, _ in n[1]):
+                tags.add("LengthKey")
     return tags
 
 
@@ -89,6 +91,7 @@ def value_features(v):
                 if k in PROTO_NAMES: f.add("protokey")
                 if k == "__proto__": f.add("__proto__")
         if n[0] in ("map", "set", "date", "typed", "re"): f.add("nonplain")
+        if n[0] == "typed": f.add("typed")
     return f
 
 
@@ -190,6 +193,8 @@ KNOWN_CLASSES = {
     "allof_spread": lambda k, tags, vf: "AllOf" in tags and k in (
         "data-not-revalidated", "data-not-a-projection", "data-has-undeclared-parts", "not-idempotent", "key-order-changes-content",
         "parse-throws:!Internal", "safeParse-throws:!Internal"),
+    "inherited_length_satisfies_declared_property": lambda k, tags, vf: "typed" in vf and "LengthKey" in tags and k in (
+        "data-not-revalidated", "not-idempotent"),
     "proto_named_keys": lambda k, tags, vf: "protokey" in vf and k in (
         "data-not-revalidated", "data-not-a-projection", "data-has-undeclared-parts", "not-idempotent", "key-order-changes-content"),
 }
